@@ -572,3 +572,78 @@ Proof.
   - pose proof (dnorm_integer (- m) k z K ltac:(lia)) as D. destruct (dnorm (- m) k) as [m' e']. lia.
   - pose proof (dnorm_integer m k z K ltac:(lia)) as D. destruct (dnorm m k) as [m' e']. lia.
 Qed.
+
+(* ------------------------------------------------------------------------------------------ *)
+(* what the text pins (round 5): VariantSpec.str_fits / veq_pinned                              *)
+(* ------------------------------------------------------------------------------------------ *)
+
+Lemma keys_eqb_refl ks : keys_eqb ks ks = true.
+Proof. induction ks as [|k t IH]; cbn; auto. rewrite bytes_eqb_refl. exact IH. Qed.
+
+Lemma keys_permuted_refl ks : keys_permuted ks ks = false.
+Proof. unfold keys_permuted. rewrite keys_eqb_refl. reflexivity. Qed.
+
+(* the comparison of a value with (a copy of) itself is inside what the text decides, and the answer is "equal" *)
+Theorem veq_pinned_refl : forall v, veq_pinned v v = true.
+Proof.
+  induction v as [s|s|k ks vs IH] using value_ind2.
+  - destruct s; reflexivity.
+  - reflexivity.
+  - cbn [veq_pinned]. rewrite kind_eqb_refl, Nat.eqb_refl, keys_permuted_refl, keys_eqb_refl. cbn [andb negb].
+    induction IH as [|v vs Hv _ IHvs]; auto.
+    rewrite Hv, veq_refl. exact IHvs.
+Qed.
+
+(* a conversion is left open only for a string whose decimal value the target type cannot hold *)
+Theorem str_fits_false lo hi v :
+  str_fits lo hi v = false -> exists s, v = VStr s /\ (str_value s < lo \/ hi <= str_value s).
+Proof.
+  destruct v as [sc|s|k ks vs]; cbn [str_fits]; try discriminate.
+  intro E. exists s. split; [reflexivity|]. lia.
+Qed.
+
+Lemma str_value_dec_Z z : str_value (dec_Z z) = z.
+Proof.
+  unfold str_value, dec_Z. destruct (z <? 0) eqn:N.
+  - destruct (dec_nonneg_props (- z) ltac:(lia)) as (D & NE & V).
+    destruct (parse_int_digits _ D NE) as [_ P]. rewrite P, V. lia.
+  - destruct (dec_nonneg_props z ltac:(lia)) as (D & NE & V).
+    destruct (parse_int_digits _ D NE) as [P _]. rewrite P, V. reflexivity.
+Qed.
+
+(* the decimal text of an integer the target type can hold is inside what the text decides *)
+Theorem str_fits_dec_Z lo hi z : lo <= z < hi -> str_fits lo hi (VStr (dec_Z z)) = true.
+Proof. intro R. cbn [str_fits]. rewrite str_value_dec_Z. lia. Qed.
+
+(* scalar against scalar, string against string, and an integer against its own decimal text are decided *)
+Theorem veq_pinned_scalars s1 s2 : veq_pinned (VS s1) (VS s2) = true.
+Proof. destruct s1; reflexivity. Qed.
+
+Theorem veq_pinned_strings a b : veq_pinned (VStr a) (VStr b) = true.
+Proof. reflexivity. Qed.
+
+Theorem veq_pinned_int_decimal z :
+  -2147483648 <= z < 2147483648 ->
+  veq_pinned (VS (SInt z)) (VStr (dec_Z z)) = true /\ veq_pinned (VStr (dec_Z z)) (VS (SInt z)) = true.
+Proof.
+  intro R. cbn [veq_pinned eq_scalar_pinned]. unfold int_pinned. rewrite (str_fits_dec_Z _ _ z R). split; reflexivity.
+Qed.
+
+(* two maps with the same key set in another insertion order: the text is silent (the reference veq, like the code,
+   answers "different" at the first position whose keys differ) *)
+Theorem veq_pinned_permuted_maps k ks vs ks' vs' :
+  length vs = length vs' -> keys_permuted ks ks' = true ->
+  veq_pinned (VNode k ks vs) (VNode k ks' vs') = false.
+Proof.
+  intros L P. cbn [veq_pinned]. rewrite kind_eqb_refl, L, Nat.eqb_refl, P. reflexivity.
+Qed.
+
+Theorem text_decides_equality_with_a_copy v : veq_pinned v v = true /\ veq v v = Some true.
+Proof. split; [apply veq_pinned_refl | apply veq_refl]. Qed.
+
+Theorem text_decides_plain_comparisons :
+  (forall s1 s2, veq_pinned (VS s1) (VS s2) = true) /\
+  (forall a b, veq_pinned (VStr a) (VStr b) = true) /\
+  (forall z, -2147483648 <= z < 2147483648 ->
+     veq_pinned (VS (SInt z)) (VStr (dec_Z z)) = true /\ veq_pinned (VStr (dec_Z z)) (VS (SInt z)) = true).
+Proof. split; [exact veq_pinned_scalars | split; [exact veq_pinned_strings | exact veq_pinned_int_decimal]]. Qed.
